@@ -17,7 +17,9 @@ from symex import show, walk
 EXPLANATION = __doc__
 TRUSTED = ["rustc / extractor", "SRP-6 agreement lemma for the five checked formulas; BigInt::modpow returns the non-negative residue also for a negative base", "sha1, num-bigint"]
 NOT_DECIDED = ["the algebraic lemma itself", "SHA-1"]
-FLOORS = {"formula": 5, "same-derivation": 5, "padding": 11, "roundtrip": 7, "case": 2}
+# padding: the three named copy sites and to_bytes_le are required one by one (a missing one is a
+# violation of its own); the From<Integer> impls are checked wherever they exist - unused ones may go
+FLOORS = {"formula": 5, "same-derivation": 5, "padding": 4, "roundtrip": 7, "case": 2}
 
 
 def applicable(feats):
